@@ -600,11 +600,29 @@ func (s *sys) applyReplay(variant string) string {
 		hd = w.header("B", h)
 		hash = string(hd.Hash)
 		signers = []int{byzIdx}
+	case "nosigs", "pvsigs":
+		// A commit proof without any precommit: an empty signature list, or the validators' PREVOTE signatures
+		// re-labelled as precommits.
+		signers = nil
 	default:
 		panic("unknown replay variant " + variant)
 	}
 	var sigs []gcrypto.SparseSignature
-	if variant == "foreign" {
+	if variant == "nosigs" || variant == "pvsigs" {
+		if variant == "pvsigs" {
+			for _, i := range []int{0, 1, 2} {
+				if s.eng != nil && i == w.idxOf(h, s.eng.keyIdx) {
+					continue
+				}
+				if w.honestMay('p', h, r, i, hash) {
+					sigs = append(sigs, w.voteSig('p', h, r, hash, i))
+				}
+			}
+		}
+		if sigs == nil {
+			sigs = []gcrypto.SparseSignature{}
+		}
+	} else if variant == "foreign" {
 		content := w.voteContent('c', h, r, hash)
 		for i := 0; i < 2; i++ {
 			sg, _ := w.keys[nKeysPool+i].Signer.Sign(context.Background(), content)
